@@ -267,6 +267,18 @@ func runC14(c *run.Ctx) {
 		entry([]byte("<p style=" + htmlAttrQuote(strings.ReplaceAll(string(st), "&", "&amp;")) + ">t</p>"))
 	})
 
+	// style values byte by byte: every string over the bytes the style scanner's branches distinguish (brackets, the
+	// "<!--" / "#" / "@" look-behinds, dashes, quote, escape, comment and declaration delimiters), so that every
+	// offset-0 / offset-1 position of each look-behind is reached
+	nsv := 4
+	if !c.Quick() {
+		nsv = 5
+	}
+	BytesS(c, "c14stylebytes", []byte("-()[]<!#@a\\\";/* "), 1, nsv, func(v []byte) {
+		entry([]byte("<p style=" + htmlAttrQuote("color: "+strings.ReplaceAll(string(v), "&", "&amp;")) + ">t</p>"))
+		entry([]byte("<p style=" + htmlAttrQuote(strings.ReplaceAll(string(v), "&", "&amp;")+": red") + ">t</p>"))
+	})
+
 	// ---- (b) promptness ----------------------------------------------------------------
 	if !hooks.Available {
 		c.Cap("binary built without the instrumentation overlay: step-bounded execution skipped")
